@@ -238,6 +238,8 @@ type Agent struct {
 	codeSeen   map[byte]int
 	// Raw, when set, answers frames the reactor does not want ServeAgent to see (e.g. unknown codes for Forward tests).
 	Raw func(frame []byte) ([]byte, bool)
+	// OnRequest, when set, sees every request (index, frame, fault about to be applied) before it is answered.
+	OnRequest func(idx int, frame []byte, fault string)
 	// Conns records every reactor connection handed out.
 	Conns []*vnet.Reactor
 }
@@ -292,6 +294,9 @@ func (a *Agent) Handle(frame []byte) vnet.Reply {
 	}
 	a.codeSeen[code]++
 	a.Log = append(a.Log, Req{Index: idx, Code: code, Body: append([]byte{}, frame...), Fault: fault})
+	if a.OnRequest != nil {
+		a.OnRequest(idx, frame, fault)
+	}
 	switch fault {
 	case FaultFailure:
 		return vnet.Reply{Raw: vnet.Frame([]byte{5})}
